@@ -814,36 +814,3 @@ func runSequences(c *gal.Ctx, tmp string) {
 		}
 	}
 }
-
-// ---- 5. registers.New handed a register (what the obsolete paths do) ----
-
-func runNewFromRegister(c *gal.Ctx) {
-	for _, p := range protos {
-		for k := 0; k < 3; k++ {
-			q := p
-			if k > 0 {
-				q = protos[c.Rng.Intn(len(protos))]
-			}
-			src := mk(q, randRaw(c, widthOf(q)))
-			var nr registers.Register
-			var err error
-			panicked, msg := gal.Recover(func() { nr, err = registers.New(p.ID(), src) })
-			obs := "OErr"
-			if panicked {
-				obs = "OPanic"
-			} else if err == nil {
-				obs = "(OOk " + regLit(nr) + ")"
-			}
-			raw, _ := rawOf(src)
-			d := map[string]interface{}{"id": string(p.ID()), "value": "register " + string(q.ID()) + " raw 0x" + raw.Text(16)}
-			idx := c.Add("new_from_register", fmt.Sprintf("CNew %s (VReg %s) %s", gal.Str2(string(p.ID())), regLit(src), obs), d, true)
-			if panicked {
-				c.OracleFail(idx, fmt.Sprintf("registers.New(%s, a %s register) panics: %s", p.ID(), q.ID(), msg), "pkg/registers/registry.go:New", d)
-			} else if reflect.TypeOf(p) == reflect.TypeOf(q) && (err != nil || sameSet([]registers.Register{src}, []registers.Register{nr}) != "") {
-				c.OracleFail(idx, fmt.Sprintf("registers.New(%s, the register itself) does not give the register back: %v", p.ID(), err), "pkg/registers/registry.go:New", d)
-			} else {
-				c.OracleOK()
-			}
-		}
-	}
-}
